@@ -550,6 +550,99 @@ Proof.
   - intros c Hc. split; [rewrite Forall_forall in Wc; now apply Wc|now apply Hn].
 Qed.
 
+(* ---- the reader as a codec statement: exact whatever follows, and every strict prefix of the
+   table-metadata section is refused with a hard error (C06) ---- *)
+
+Lemma rspec_map_err {A} e (m : R A) bs a : hard e -> rspec m bs a -> rspec (map_err e m) bs a.
+Proof.
+  intros He [E T]. split.
+  - intros tail. unfold map_err. now rewrite E.
+  - intros n Hn. destruct (T n Hn) as (e' & Ee & _). exists e. unfold map_err. rewrite Ee. split; [reflexivity|exact He].
+Qed.
+
+Lemma rspec_read_column c : col_ok c -> forall names m,
+  names_ok names c -> mmod m = true -> (forall n, In n names -> md_find (ename n) m = None) ->
+  rspec (read_column swp cap0 (map def_of names) m) (enc_colvals names c)
+        {| ments := ments m ++ picked names c; mmod := true |}.
+Proof.
+  intros (Wc & Nc). induction names as [|n names IH]; intros m (Hnd & Hw & Ht) Hm Hfree.
+  - cbn [map read_column enc_colvals concat picked flat_map]. rewrite app_nil_r.
+    destruct m as [es md]. cbn [mmod ments] in *. subst md. apply rspec_ret.
+  - cbn [map def_of read_column]. unfold enc_colvals. cbn [map concat]. fold (enc_colvals names c).
+    cbn [map] in Hnd. inversion Hnd as [|k ks Hnin Hnd']. subst.
+    assert (Hok' : names_ok names c).
+    { split; [exact Hnd'|]. split; [intros x Hx; apply Hw; now right|intros x e Hx; apply Ht; now right]. }
+    unfold enc_colval at 1. cbn [picked flat_map]. fold (picked names c).
+    destruct (md_find (ename n) c) as [e|] eqn:F.
+    + destruct (md_find_in _ _ _ F) as (Hin & Ne). rewrite Forall_forall in Wc. destruct (Wc e Hin) as (_ & Hv).
+      destruct (evalue e) as [v|] eqn:Ev; [|contradiction]. destruct Hv as (Hv1 & Bt & Hd).
+      assert (Ety : oty v = ent_type n) by (rewrite <- (Ht n e (or_introl eq_refl) F); unfold ent_type; now rewrite Ev).
+      rewrite <- app_assoc. eapply rspec_bind; [apply (rspec_int8 1)|]. cbn [Z.eqb].
+      eapply rspec_bind; [rewrite <- Ety; now apply rspec_obj1|].
+      assert (Wn : tentry_ok n) by (apply Hw; now left).
+      assert (Args : add_args_ok v (edflt n)).
+      { destruct Hv1 as (Wv & Cv). split; [now apply wf_obj_ok'|]. split; [exact Cv|].
+        destruct (edflt n) as [d|] eqn:Ed; [|exact I]. destruct (tentry_dflt n d Wn Ed) as ((Wd & Cd) & Td).
+        split; [now apply wf_obj_ok'|]. split; [exact Cd|congruence]. }
+      destruct (md_add_spec (ename n) v (edflt n) m Hm Args) as [Hadd _].
+      rewrite (Hadd (Hfree n (or_introl eq_refl))).
+      assert (Hfree' : forall x, In x names ->
+                md_find (ename x) {| ments := ments m ++ [{| ename := cstr (ename n); evalue := Some v; edflt := edflt n |}]; mmod := true |} = None).
+      { intros x Hx. rewrite <- Hm. apply md_find_app_none; [apply Hfree; now right|]. cbn [ename]. rewrite name_eqb_cstr_r.
+        destruct (name_eqb (ename x) (ename n)) eqn:E; [|reflexivity]. exfalso. apply Hnin.
+        apply name_eqb_true in E. apply in_map_iff. exists x. split; [unfold key; exact E|exact Hx]. }
+      pose proof (IH {| ments := ments m ++ [{| ename := cstr (ename n); evalue := Some v; edflt := edflt n |}]; mmod := true |} Hok' eq_refl Hfree') as H. cbn [ments] in H. rewrite <- app_assoc in H. exact H.
+    + eapply rspec_bind; [apply (rspec_int8 0)|]. cbn [Z.eqb]. rewrite app_nil_l.
+      apply IH; [exact Hok'|exact Hm|]. intros x Hx. apply Hfree. now right.
+Qed.
+
+Lemma rspec_read_columns names : forall cols,
+  (forall c, In c cols -> col_ok c /\ names_ok names c) ->
+  rspec (read_columns swp cap0 (length cols) (map def_of names)) (concat (map (enc_colvals names) cols))
+        (map (fun c => {| ments := picked names c; mmod := true |}) cols).
+Proof.
+  induction cols as [|c cols IH]; intros W; cbn [length read_columns map concat]; [apply rspec_ret|].
+  destruct (W c (or_introl eq_refl)) as (Wc & Wn).
+  eapply rspec_bind.
+  - pose proof (rspec_read_column c Wc names md_create Wn eq_refl (fun n _ => eq_refl)) as H. cbn [ments md_create app] in H. exact H.
+  - eapply rspec_ext; [apply app_nil_r|]. eapply rspec_bind; [apply IH; intros d Hd; apply W; now right|]. apply rspec_ret.
+Qed.
+
+Theorem rspec_tm t names : tm_ok t ->
+  (forall n, In n names -> tentry_ok n) -> zlen names < 2147483648 ->
+  (forall c, In c (tcols t) -> names_ok names c) ->
+  rspec (tm_read swp cap0) (enc_tm t names)
+        {| tmeta := {| ments := ments (tmeta t); mmod := false |}; tcols := map (norm names) (tcols t) |}.
+Proof.
+  intros (Wt & Nt & Wc & Nc) Wn Nn Hn. unfold tm_read, enc_tm.
+  pose proof (zlen_nonneg (ments (tmeta t))) as P1. pose proof (zlen_nonneg (tcols t)) as P2. pose proof (zlen_nonneg names) as P3.
+  change ([223; 91; 2] ++ ?x) with ([223; 91; SBDF_TABLEMETADATA_SECTIONID] ++ x).
+  eapply rspec_bind; [apply rspec_sec_expect|].
+  unfold md_cnt. eapply rspec_bind; [apply rspec_int32; unfold i32_range; lia|].
+  destruct (zlen (ments (tmeta t)) <? 0) eqn:C0; [lia|].
+  eapply rspec_bind.
+  { apply rspec_rrepeat; [intros e He; apply rspec_tentry; rewrite Forall_forall in Wt; now apply Wt|intros e _; apply enc_tentry_nonempty]. }
+  eapply rspec_bind; [apply rspec_int32; unfold i32_range; lia|].
+  change (INT_MAX / 16) with 134217727.
+  destruct ((zlen (tcols t) <? 0) || (134217727 <? zlen (tcols t))) eqn:C1; [lia|].
+  eapply rspec_ext; [apply app_nil_l|]. eapply rspec_bind; [unfold ralloc, alloc_ok; apply rspec_ret|].
+  eapply rspec_bind; [apply rspec_map_err; [apply hard_oom|apply rspec_int32; unfold i32_range; lia]|].
+  destruct (zlen names <? 0) eqn:C2; [lia|].
+  eapply rspec_ext; [apply app_nil_l|]. eapply rspec_bind; [unfold ralloc, alloc_ok; apply rspec_ret|].
+  eapply rspec_bind.
+  { apply (rspec_rrepeat_view (read_name_def swp cap0) (enc_namedef) def_of names);
+      [intros n Hin; apply rspec_namedef; now apply Wn|intros n _; apply enc_namedef_nonempty]. }
+  eapply rspec_ext; [apply app_nil_r|]. eapply rspec_bind.
+  - replace (Z.to_nat (zlen (tcols t))) with (length (tcols t)) by (unfold zlen; now rewrite Nat2Z.id).
+    apply rspec_read_columns. intros c Hc. split; [rewrite Forall_forall in Wc; now apply Wc|now apply Hn].
+  - rewrite map_map.
+    replace (map (fun x => md_set_immutable {| ments := picked names x; mmod := true |}) (tcols t)) with (map (norm names) (tcols t))
+      by (apply map_ext; intros c; reflexivity).
+    apply rspec_ret.
+Qed.
+
+
+
 End TmFacts.
 
 (* ---- from the writer's folding to the reader's hypotheses, and the logical content ---- *)
